@@ -22,7 +22,12 @@
 //! This module implements the `SnapshotBuilder` described in ADR-0007 Section 12.
 //! The key invariant: `base_view + ops → WSC` without rebuilding [`GraphStore`].
 
+#[cfg(not(feature = "echo_verif_flat"))]
 use std::collections::{BTreeMap, BTreeSet, VecDeque};
+#[cfg(feature = "echo_verif_flat")]
+use crate::verif_flat::{BTreeMap, BTreeSet};
+#[cfg(feature = "echo_verif_flat")]
+use std::collections::VecDeque;
 
 use crate::attachment::{AttachmentKey, AttachmentOwner, AttachmentPlane, AttachmentValue};
 use crate::ident::{EdgeId, Hash, NodeId, NodeKey, TypeId, WarpId};
